@@ -291,6 +291,13 @@ def run(ctx):
         # ---- language errors
         lk, lsrc, locre = rng.choice(LANG_FAULTS)
         lead = gen_lead(rng)
+        lcfg = {}
+        if rng.random() < .3:
+            # the same fault with its statements written as data-<prefix>-<name> attributes (option enable_data_attributes)
+            respell = lambda t: re.sub(r'(?<![<\w/])(tal|metal|i18n|meta):([a-z]+(?:-[a-z]+)*)=', r'data-\1-\2=', t)
+            dsrc, dre = respell(lsrc), respell(locre)
+            if dsrc != lsrc and re.search(dre, dsrc, re.S):
+                lk, lsrc, locre, lcfg = lk + ':data-spelling', dsrc, dre, {'enable_data_attributes': True}
         full = lead + lsrc + rng.choice(['', '\n<p>z</p>'])
         m = re.search(locre, full, re.S)
         lo, hi = m.span(1)
@@ -298,7 +305,7 @@ def run(ctx):
         ctx.cover('site', 'lang:' + lk)
         res = None
         try:
-            PageTemplate(full)
+            PageTemplate(full, **lcfg)
             res = ('no-error', None)
         except TemplateError as e:
             problem = monitors.check_template_error(e, full)
@@ -312,10 +319,10 @@ def run(ctx):
         if res is not None and lk.startswith('unknown-expression-type') and res[0] == 'non-template-error' \
                 and res[1].startswith('LookupError: Unknown expression type'):
             ctx.violation('unknown-expression-type-raises-LookupError', 'language error %s in %r: %s' % (lk, full, res[1]),
-                          {'kind': 'lang', 'src': full})
+                          {'kind': 'lang', 'src': full, 'cfg': lcfg})
         elif res is not None:
             ctx.violation('lang-%s-%s' % (lk, res[0]), 'language error %s in %r: %s' % (lk, full, res[1]),
-                          {'kind': 'lang', 'src': full})
+                          {'kind': 'lang', 'src': full, 'cfg': lcfg})
     layer_smoke(ctx, 300 if ctx.quick else 5000)
     layer_garbage_arguments(ctx, 400 if ctx.quick else 8000)
 
